@@ -1,5 +1,6 @@
 import Pycoin.Driver.Core
-import Pycoin.Model.Sha256
+import Pycoin.Model.Hash
+/-! Driver ops of the shared hash foundation (standard-spec functions; validated against hashlib/hmac by C19). -/
 namespace Pycoin.Driver.Hash
 open Pycoin.Driver Pycoin.Hash
 
@@ -7,5 +8,11 @@ def handle : Handler := fun op args =>
   match op, args with
   | "sha256", [m] => do some ("ok " ++ hx (sha256 (← parseHex? m)))
   | "dsha256", [m] => do some ("ok " ++ hx (dsha256 (← parseHex? m)))
+  | "sha512", [m] => do some ("ok " ++ hx (sha512 (← parseHex? m)))
+  | "sha1", [m] => do some ("ok " ++ hx (sha1 (← parseHex? m)))
+  | "ripemd160_spec", [m] => do some ("ok " ++ hx (ripemd160 (← parseHex? m)))
+  | "hash160", [m] => do some ("ok " ++ hx (hash160 (← parseHex? m)))
+  | "hmac256", [k, m] => do some ("ok " ++ hx (hmacSha256 (← parseHex? k) (← parseHex? m)))
+  | "hmac512", [k, m] => do some ("ok " ++ hx (hmacSha512 (← parseHex? k) (← parseHex? m)))
   | _, _ => none
 end Pycoin.Driver.Hash
